@@ -36,11 +36,14 @@ theorem c05_approx_fvs_trees_end_to_end (g : Graph) (hs : g.simpleB = true) (hp 
     ApproxCorrect g k order (approxFvsTrees g k scan order picks sorter pickD) :=
   approxFvsTrees_correct g hs hp k hk scan hscan order ho picks hpicks sorter hsort pickD hpickD
 
+/-- `approx_mcb_sva_iso_trees`: the sequential entry point instantiates the FVS-tree exact algorithm
+(parmcb_approx_sva_trees.hpp:49), and so does the model — hence the `picks` oracle -/
 theorem c05_approx_iso_trees_end_to_end (g : Graph) (hs : g.simpleB = true) (hp : g.positiveB = true) (k : Nat) (hk : 1 ≤ k)
     (scan : List Nat) (hscan : scanOkB g scan = true) (order : List Nat) (ho : order.Perm (List.range g.n))
+    (picks : List Nat) (hpicks : ∀ x, x < g.n → x ∈ picks)
     (sorter : List Cand → List Cand) (hsort : SortOK sorter) (pickD : Nat → Pick) (hpickD : ∀ e, PickOK (pickD e)) :
-    ApproxCorrect g k order (approxIsoTrees g k scan order sorter pickD) :=
-  approxIsoTrees_correct g hs hp k hk scan hscan order ho sorter hsort pickD hpickD
+    ApproxCorrect g k order (approxIsoTrees g k scan order picks sorter pickD) :=
+  approxIsoTrees_correct g hs hp k hk scan hscan order ho picks hpicks sorter hsort pickD hpickD
 
 theorem c03_approx_signed_tbb_end_to_end (g : Graph) (hs : g.simpleB = true) (hp : g.positiveB = true) (k : Nat) (hk : 1 ≤ k)
     (scan : List Nat) (hscan : scanOkB g scan = true) (order : List Nat) (ho : order.Perm (List.range g.n))
